@@ -36,6 +36,7 @@ static long long vnd_next(const char *kind) {
 #define V_ASSERT(c, msg) do { if (!(c)) { printf("REPLAY-ASSERT-FAILED: %s\n", msg); fflush(stdout); exit(1); } } while (0)
 #define V_ASSUME(c) do { if (!(c)) { printf("REPLAY-ASSUME-VIOLATED: %s\n", #c); fflush(stdout); exit(77); } } while (0)
 #define V_COVER(label) ((void) 0)
+#define V_COVER_OPT(label) ((void) 0)
 #define V_MALLOC_OK(p) do { if (!(p)) exit(78); } while (0)
 #include <malloc.h>
 #define __CPROVER_OBJECT_SIZE(p) malloc_usable_size((void *) (p))   /* under ASan: the requested size */
@@ -47,6 +48,8 @@ unsigned char nondet_u8(void); size_t nondet_size(void);
 #define V_ASSUME(c) __CPROVER_assume(c)
 /* reachability witness: this "assertion" MUST be reported as FAILURE, else the harness is vacuous */
 #define V_COVER(label) __CPROVER_assert(0, "WITNESS " label)
+/* optional witness: recorded in evidence when reachable, no complaint when not */
+#define V_COVER_OPT(label) __CPROVER_assert(0, "WITNESS? " label)
 #define V_MALLOC_OK(p) __CPROVER_assume((p) != 0)
 #endif
 
